@@ -70,6 +70,12 @@ def r2(ctx, prog, eng):
     for c in cs:
         ctx.ob('C10.R2', '%s|holds' % ap.name, M_CURR in (res.get(q.pt(ap, c)) or ()), 'appendLockless called with curr_buffer_mutex_ held',
                where=ap.loc(c['i']))
+    # the whole datum goes through one critical section: one call, with the caller's own (ptr, size), not in a loop
+    whole = len(cs) == 1 and [ap.path(a) for a in cs[0]['args']] == [p_['n'] for p_ in ap.params] and \
+        ap.enclosing(cs[0]['i'], ('ForStmt', 'WhileStmt', 'DoStmt', 'CXXForRangeStmt')) is None
+    ctx.ob('C10.R2', '%s|whole-datum' % ap.name, whole,
+           'append() passes its whole datum to appendLockless once, inside one critical section' if whole else
+           'append() splits the datum over several critical sections of the producer mutex: appends of other threads can land between the pieces', where=ap.loc(cs[0]['i']))
     al = prog.fn1(IMPL + '::appendLockless')
     r2_ = eng.analyze(al, frozenset([M_CURR]))
     lost = [p for p, e in al.cfg.points() if r2_.get(p) is not None and M_CURR not in r2_[p]]
@@ -229,7 +235,8 @@ def r5(ctx, prog, eng, backend):
         raise AnalysisBroken('threadFunc: no break out of the outer loop')
     drains = [st for st in f.stmts if st and q.is_call(st, fn='empty') and q.obj_field_is(f, st, 'Impl::full_buffers_')
               and f.enclosing(st['i'], ('ForStmt', 'WhileStmt', 'DoStmt')) not in (None, outer[0]['i'])]
-    trys = [st for st in f.stmts if st and q.is_call(st, fn='try_lock') and q.obj_field_is(f, st, 'Impl::curr_buffer_mutex_')]
+    trys = [st for st in f.stmts if st and q.is_call(st, fn='push_back') and q.obj_field_is(f, st, 'Impl::full_buffers_') and st.get('args') and
+            (f.field_of(st['args'][0]) or '').endswith('Impl::curr_buffer_')]
     for b in brks:
         bp = q.pt(f, b) or f.cfg.point_of(b['i'])
         if bp is None:
@@ -264,7 +271,7 @@ def r5(ctx, prog, eng, backend):
                 if qvars & vars_ and only_or and f.cfg.dominates(f.cfg.point_of(f.stmts[a]['cond']), cp):
                     ok_flush = True
         ctx.ob('C10.R5', '%s|flush-on-quit' % f.name, ok_flush,
-               'the partial-buffer hand-over (try_lock block) runs under a disjunction containing the quit flag, before the exit test', where=f.loc(b['i']))
+               'the partial-buffer hand-over runs under a disjunction containing the quit flag, before the exit test', where=f.loc(b['i']))
 
 
 def r6(ctx, prog, eng, ctxs):
@@ -277,6 +284,44 @@ def r6(ctx, prog, eng, ctxs):
     ctx.stats['lock_order_edges'] = ['%s->%s @ %s' % (a.split('::')[-1], b.split('::')[-1], w) for (a, b), w in sorted(edges.items())]
     if len(edges) < 3:
         raise AnalysisBroken('lock-order graph lost its edges (%d)' % len(edges))
+    # wait-for edges: a role that waits on a condition variable while holding another mutex M depends on the notifier of that
+    # variable; if a notifier role ever *blocks* on M the two wait for each other (try_lock does not block)
+    waits = []      # (role, cv field, held set, where)
+    notifiers = {}  # cv field -> roles
+    blocking = {}   # role -> {mutex: where}
+    for f, entry, role in ctxs:
+        res = eng.analyze(f, entry)
+        vl = eng._var_locks(f)
+        ctor_to_var = {v[2]: v for d, v in vl.items()}
+        for pt, st in f.cfg.stmt_points():
+            ls = res.get(pt)
+            if ls is None:
+                continue
+            if st['k'] == 'CXXMemberCallExpr' and st.get('cls', '').startswith('std::condition_variable'):
+                cv = f.field_of(st.get('obj'))
+                if st.get('fn') in locks.CV_WAITS and st.get('args'):
+                    lk = f.s(f.strip_casts(st['args'][0]))
+                    own = vl.get(lk.get('d'), (None,))[0] if lk else None
+                    waits.append((role, cv, set(ls) - {own}, f.loc(st['i'])))
+                elif st.get('fn') in ('notify_one', 'notify_all'):
+                    notifiers.setdefault(cv, set()).add(role)
+            acq = None
+            if st['k'] == 'CXXConstructExpr' and st['i'] in ctor_to_var and ctor_to_var[st['i']][1]:
+                acq = ctor_to_var[st['i']][0]
+            elif st['k'] == 'CXXMemberCallExpr' and st.get('fn') == 'lock' and st.get('cls', '') in locks.MUTEX_CLASSES:
+                acq = eng.mutex_id(f, st.get('obj'))
+            if acq:
+                blocking.setdefault(role, {}).setdefault(acq, f.loc(st['i']))
+    bad = []
+    for role, cv, held, where in waits:
+        for nr in notifiers.get(cv, ()):
+            if nr == role:
+                continue
+            for m in held:
+                if m in blocking.get(nr, {}):
+                    bad.append('%s waits on %s at %s holding %s, which the %s role blocks on at %s' % (role, (cv or '?').split('::')[-1], where, m.split('::')[-1], nr, blocking[nr][m]))
+    ctx.ob('C10.R6', '%s|wait-for' % IMPL, not bad, 'no role blocks on a mutex that another role holds while waiting for it (%d waits, notifier roles %s)' %
+           (len(waits), {(k or '?').split('::')[-1]: sorted(v) for k, v in notifiers.items()}) if not bad else 'wait-for cycle: ' + '; '.join(bad[:2]))
 
 
 def run(ctx):
